@@ -65,6 +65,12 @@ def explore_config(case):
     elems = alpha.reduced(elems, (60 if tier == "thorough" else 36) if not is_dp else 16)
     xs = alpha.elements(AL, seed, small=True)
     xs = alpha.reduced(xs, (40 if tier == "thorough" else 24) if not is_dp else 12)
+    if not is_dp:
+        from .. import harvest as _hv
+        for op_ in ("Ad", "to_Matrix", "inverse", "product"):
+            elems = elems + [dict(tag="harvest(%s)" % op_, p=p_, refs=None) for p_ in _hv.lie_members(B, op_, seed, tier) if gutil.elem_excluded(L, p_) is None]
+        for op_ in ("ad", "exp", "bracket"):
+            xs = xs + [dict(tag="harvest(%s)" % op_, p=p_, refs=None) for p_ in _hv.lie_members(B, op_, seed, tier)]
 
     # ---------------- direct numeric use of the API, object reuse, argument mutation (see numapi) -------
     numapi.check_group(res, B, [e["p"] for e in alpha.reduced(elems, 16 if not is_dp else 8)], [x["p"] for x in alpha.reduced(xs, 16 if not is_dp else 8)],
